@@ -60,6 +60,16 @@ class SubKw(Base):
         self.a, self.kwargs = a, kwargs
 
 
+class Outer:
+    """only a namespace: the class below has a dotted qualified name"""
+
+    class Inner(Base):
+        def __init__(self, i: int = 0, **kwargs):
+            _rec(self, "Inner", {"i": i})
+            super().__init__(**kwargs)
+            self.i = i
+
+
 class Unrelated:
     def __init__(self, a: int = 1, u: int = 0):
         _rec(self, "Unrelated", locals())
@@ -180,6 +190,7 @@ MODEL: Dict[str, Dict[str, Any]] = {
     "SubOver": {"params": {"a": P("str", "over"), "c": P("bool", False)}},
     "SubReq": {"params": {"r": P("int"), "a": P("int", 2)}},
     "SubKw": {"params": {"a": P("int", 7)}, "kw": True},
+    "Inner": {"params": {"i": P("int", 0), **_BASE}},
     "Unrelated": {"params": {"a": P("int", 1), "u": P("int", 0)}},
     "AbsBase": {"params": {"k": P("int", 4)}, "abstract": True},
     "Concrete": {"params": {"m": P("str", "m"), "k": P("int", 4)}},
@@ -193,7 +204,7 @@ MODEL: Dict[str, Dict[str, Any]] = {
     "make_sub": {"params": {"b": P("float", 2.5)}, "returns": "SubAdd"},
     "make_unrelated": {"params": {"a": P("int", 3)}, "returns": "Unrelated"},
 }
-CLASSES = {c.__name__: c for c in (Base, SubAdd, SubOver, SubReq, SubKw, Unrelated, AbsBase, Concrete, StillAbs, Holder,
+CLASSES = {c.__name__: c for c in (Base, SubAdd, SubOver, SubReq, SubKw, Outer.Inner, Unrelated, AbsBase, Concrete, StillAbs, Holder,
                                    HolderSub, Multi, Deep)}
 FACTORIES = {"make_base": make_base, "make_sub": make_sub, "make_unrelated": make_unrelated, "make_untyped": make_untyped}
 MISSING = "<missing>"
@@ -204,7 +215,7 @@ def path(name):
 
 
 # things a class_path can name: label -> (string written by the user, what it imports to)
-IMPORTS: Dict[str, Any] = {n: (path(n), c) for n, c in CLASSES.items()}
+IMPORTS: Dict[str, Any] = {n: (f"{MOD}.{c.__qualname__}", c) for n, c in CLASSES.items()}
 IMPORTS.update({n: (path(n), f) for n, f in FACTORIES.items()})
 IMPORTS.update({
     "NOT_A_CLASS": (path("NOT_A_CLASS"), NOT_A_CLASS),
@@ -579,7 +590,8 @@ def run_cases(h, cases, worker, procs=12, chunk=4):
 
     cases = list(cases)
     if h.only:
-        cases = [c for c in cases if c["id"] in h.only]
+        # replay: the case whose id is part of the given violation key (keys that do not embed an id run everything)
+        cases = [c for c in cases if c["id"] in h.only] or cases
     n = max(1, min(procs, 16, os.cpu_count() or 1, len(cases)))
     if n == 1:
         results = map(worker, cases)
